@@ -217,3 +217,14 @@ Definition reader_read_next (me buf : Z) (r : reader) : option (Z * Z * Z) * rea
   | [] => (None, r)
   | _ => reader_read_loop me buf (S (length (r_files r))) r
   end.
+
+(** ReadNext until EOF (at most [fuel] lines). *)
+Fixpoint reader_read_all (me buf : Z) (fuel : nat) (r : reader) : list (Z * Z * Z) :=
+  match fuel with
+  | O => []
+  | S fuel =>
+      match reader_read_next me buf r with
+      | (None, _) => []
+      | (Some x, r') => x :: reader_read_all me buf fuel r'
+      end
+  end.
